@@ -264,6 +264,23 @@ def run(ctx):
 
     FUEL = '60%nat 400%nat'
 
+    def guarded(fn, what, seconds=45):
+        """run fn under a SIGALRM watchdog: a call that does not return (e.g. a histogram of 2^29 bins) is a violation"""
+        import signal
+
+        def on_alarm(signum, frame):
+            raise Watchdog()
+        old = signal.signal(signal.SIGALRM, on_alarm)
+        signal.setitimer(signal.ITIMER_REAL, seconds)
+        try:
+            return fn()
+        except Watchdog:
+            ctx.violation('no-progress ' + what, {'call': what, 'why': 'did not return within %d s' % seconds})
+            return None
+        finally:
+            signal.setitimer(signal.ITIMER_REAL, 0)
+            signal.signal(signal.SIGALRM, old)
+
     def check_int(data, full=True):
         """all secint functions on one data set"""
         n = len(data)
@@ -441,8 +458,14 @@ def run(ctx):
     for i, d in enumerate(fsets):
         check_fxp(d, full=(i % 3 == 0))
     # mode on integral fixed-point data
-    for d in [[3, 3, 1, 1], [2, 2, 5], [4], [1, 0, 1, 0, 1], [7, 7, 6, 6, 6]] + [[rng.randrange(0, 6) for _ in range(rng.randrange(1, 8))] for _ in range(ctx.n(10, 60))]:
-        got = mpc.run(mpc.output(ms.mode([secfxp(a) for a in d])))
+    widish = [[0, 40, 40, 40, 7, 100, 3], [-50, -10, -10, 33, -50, -10], [5, 37, 37, 5, 37]]
+    for R in (31, 32, 33, 100):
+        base = rng.randrange(-500, 100)
+        widish.append([base, base + R, base + R, base + rng.randrange(1, R), base + R, base + 2])
+    for d in [[3, 3, 1, 1], [2, 2, 5], [4], [1, 0, 1, 0, 1], [7, 7, 6, 6, 6]] + widish + [[rng.randrange(0, 6) for _ in range(rng.randrange(1, 8))] for _ in range(ctx.n(10, 60))]:
+        got = guarded(lambda: mpc.run(mpc.output(ms.mode([secfxp(a) for a in d]))), 'mode secfxp data=%s' % d)
+        if got is None:
+            continue
         ex = statistics.mode(d)
         ctx.case({'st': 'secfxp', 'fn': 'mode', 'data': d}, kind='mode/secfxp')
         cnt = {a: d.count(a) for a in d}
@@ -462,7 +485,9 @@ def run(ctx):
             key0 = {'st': stname + '-wide', 'data': d, 'range': R}
             xs = lambda: [st(a) for a in d]   # noqa: E731
             if R < 4096 or stname == 'secfxp' or ctx.tier == 'thorough':     # 2^13 bins: one type only in the quick tier
-                got = mpc.run(mpc.output(ms.mode(xs())))
+                got = guarded(lambda: mpc.run(mpc.output(ms.mode(xs()))), 'mode %s-wide data=%s' % (stname, d))
+                if got is None:
+                    break
                 ex = statistics.mode(d)
                 ctx.case(dict(key0, fn='mode'), kind='mode/%s-wide' % stname)
                 if got != ex:
